@@ -33,3 +33,51 @@ package recordlayer
 //@ ensures len: result == nil ==> h.ContentLen == uint16(data[11+len(h.ConnectionID)])<<8 | uint16(data[12+len(h.ConnectionID)])
 //@ ensures versions: result == nil ==> h.Version.Major == 254 && (h.Version.Minor == 255 || h.Version.Minor == 253)
 //@ end
+
+// Datagram splitting helpers: offsets are positions inside buf; the configured CID length is a length.
+
+//@ func ContentAwareUnpackDatagram
+//@ requires cid-len: cidLength >= 0 && cidLength <= 255
+//@ end
+
+//@ func UnpackDatagram13
+//@ requires cid-len: cidLength >= 0 && cidLength <= 255
+//@ end
+
+//@ func unpackPlaintextDatagram13Record
+//@ inline
+//@ requires offset-in-buf: 0 <= offset && offset <= len(buf)
+//@ end
+
+//@ func unpackCiphertextDatagramRecord
+//@ inline
+//@ requires offset-in-buf: 0 <= offset && offset < len(buf)
+//@ requires cid-len: cidLength >= 0 && cidLength <= 255
+//@ end
+
+//@ func unmarshalCiphertextDatagramHeader
+//@ inline
+//@ requires nonempty: len(data) >= 1
+//@ requires cid-len: cidLength >= 0 && cidLength <= 255
+//@ end
+
+//@ func unpackCiphertextDatagram13RecordWithoutLength
+//@ inline
+//@ requires offset-in-buf: 0 <= offset && offset <= len(buf)
+//@ end
+
+//@ func unpackCiphertextDatagram13RecordWithLength
+//@ inline
+//@ requires offset-in-buf: 0 <= offset && offset <= len(buf)
+//@ requires header-size: 0 <= headerSize && headerSize <= 512
+//@ end
+
+//@ func isMismatchedCiphertextCID
+//@ inline
+//@ requires out-param: firstCID != nil
+//@ end
+
+//@ func unmarshalPlaintextRecord13Header
+//@ inline
+//@ requires out-param: header != nil
+//@ end
